@@ -24,16 +24,16 @@ const modPath = "go.starlark.net"
 // (lazily) a VTA call graph of /repo's current working tree.
 type Prog struct {
 	InitFuncs []*ssa.Function // synthetic package initialisers (var x = f()) of the module's packages
-	Repo    string
-	Arch    string
-	Fset    *token.FileSet
-	Pkgs    []*packages.Package          // packages of module go.starlark.net
-	ByPath  map[string]*packages.Package // import path -> package
-	SSA     *ssa.Program
-	SSAPkg  map[string]*ssa.Package
-	Funcs   []*ssa.Function // all source functions of the module (incl. closures), deterministic order
-	cg      *callgraph.Graph
-	nAllFns int
+	Repo      string
+	Arch      string
+	Fset      *token.FileSet
+	Pkgs      []*packages.Package          // packages of module go.starlark.net
+	ByPath    map[string]*packages.Package // import path -> package
+	SSA       *ssa.Program
+	SSAPkg    map[string]*ssa.Package
+	Funcs     []*ssa.Function // all source functions of the module (incl. closures), deterministic order
+	cg        *callgraph.Graph
+	nAllFns   int
 }
 
 // Load type-checks ./... in repo for the given GOARCH with optional file
